@@ -110,7 +110,7 @@ fn plan(ctx: &mut CheckCtx, k: f64) {
             ctx.run::<s3_reservoir::S3b>(cells as u64);
         }
         "C18" => {
-            ctx.required_probes = vec!["phase_fill", "phase_reservoir", "phase_gap", "boundary_fill_to_reservoir", "boundary_reservoir_to_gap"];
+            ctx.required_probes = vec!["phase_fill", "phase_reservoir", "phase_gap", "boundary_fill_to_reservoir", "boundary_reservoir_to_gap", "via_extend"];
             ctx.run::<s3_reservoir::S3a>(n(400_000));
         }
         _ => {
